@@ -334,3 +334,91 @@ func (c *Case) HasHold() bool {
 	}
 	return false
 }
+
+// SnapshotFn gives access to store snapshots by number.
+type SnapshotFn func(n int) map[string][]byte
+
+// storedSeq decodes the position stored for source connector id in a snapshot:
+// -1 for none/empty, -2 if the stored position is not one the source produced.
+func storedSeq(snap map[string][]byte, id string, srcIdx int) (seq int, present bool) {
+	pos, ok := StoredPosition(snap, id)
+	if !ok {
+		return -1, false
+	}
+	if pos == "" {
+		return -1, true
+	}
+	s, q, okp := ParsePos(pos)
+	if !okp || s != srcIdx {
+		return -2, true
+	}
+	return q, true
+}
+
+// CheckC02 checks durability-before-ack and monotonicity of stored positions.
+func (h *History) CheckC02(snaps SnapshotFn) []Violation {
+	var out []Violation
+	if h.hostilePositions() {
+		return nil
+	}
+	nsrc := len(h.Case.Sources)
+	cur := make([]int, nsrc) // stored seq per source as of the latest applied store change
+	for i := range cur {
+		cur[i] = -1
+	}
+	everNonEmpty := make([]bool, nsrc)
+	for i, e := range h.Events {
+		switch e.Kind {
+		case EvDBCommit, EvDBSet:
+			if !e.OK || e.Snap == 0 {
+				continue
+			}
+			snap := snaps(e.Snap)
+			for si, s := range h.Case.Sources {
+				q, present := storedSeq(snap, s.ID, si)
+				if !present {
+					continue
+				}
+				if q == -2 {
+					out = append(out, Violation{Prop: "C02", Key: "C02/stored-position-foreign", Index: i,
+						Detail: fmt.Sprintf("store holds a position for %s that the source never produced", s.ID)})
+					continue
+				}
+				if q < cur[si] {
+					key := "C02/stored-position-went-backwards"
+					if q == -1 && everNonEmpty[si] {
+						key = "C02/stored-position-became-empty"
+					}
+					out = append(out, Violation{Prop: "C02", Key: key, Index: i,
+						Detail: fmt.Sprintf("stored position of %s went from seq %d to %d", s.ID, cur[si], q)})
+				}
+				if q > cur[si] {
+					// clause 4: everything at or before the stored position was handled downstream
+					for seq := cur[si] + 1; seq <= q; seq++ {
+						if seq < 0 {
+							continue
+						}
+						if ok, why := h.HandledAt(si, seq, i); !ok {
+							out = append(out, Violation{Prop: "C02", Key: "C02/position-stored-before-handled/" + h.Case.Engine, Index: i,
+								Detail: fmt.Sprintf("commit stores position seq %d of %s although s%d:%d is not handled: %s", q, s.ID, si, seq, why)})
+							break
+						}
+					}
+				}
+				cur[si] = q
+				if q >= 0 {
+					everNonEmpty[si] = true
+				}
+			}
+		case EvSrcAck:
+			if e.Src < 0 || e.Src >= nsrc {
+				continue
+			}
+			if cur[e.Src] < e.Seq {
+				out = append(out, Violation{Prop: "C02", Key: "C02/ack-without-durable-position", Index: i,
+					Detail: fmt.Sprintf("source %s was told s%d:%d is acked but the store durably holds seq %d", e.Comp, e.Src, e.Seq, cur[e.Src])})
+			}
+		}
+	}
+	return out
+}
